@@ -93,6 +93,21 @@ func selfTestBlake2() error {
 	if got := Blake2sSum(32, nil, acc); !bytes.Equal(got, unhex("6a411f08ce25adcdfb02aba641451cec53c598b24f4fc787fbdc88797f4c1dfe")) {
 		return fmt.Errorf("refhashes: RFC 7693 Appendix E BLAKE2s self-test mismatch: %x", got)
 	}
+	// resuming from (h, t) reproduces the one-shot value, from the start and from a mid-point
+	for _, n := range []int{0, 1, 64, 65, 128, 129, 300} {
+		m := seqBytes(n)
+		if !bytes.Equal(Blake2sResume(Blake2sInit(32), 0, m, 32), Blake2sSum(32, nil, m)) || !bytes.Equal(Blake2bResume(Blake2bInit(20), 0, 0, m, 20), Blake2bSum(20, nil, m)) {
+			return fmt.Errorf("refhashes: Blake2*Resume from the initial state differs from the one-shot value for %d bytes", n)
+		}
+		if n > 128 {
+			hs, hb := Blake2sInit(32), Blake2bInit(64)
+			b2sCompress(&hs, m[:64], 64, 0, false)
+			b2bCompress(&hb, m[:128], 128, 0, false)
+			if !bytes.Equal(Blake2sResume(hs, 64, m[64:], 32), Blake2sSum(32, nil, m)) || !bytes.Equal(Blake2bResume(hb, 128, 0, m[128:], 64), Blake2bSum(64, nil, m)) {
+				return fmt.Errorf("refhashes: Blake2*Resume from a mid-point differs from the one-shot value for %d bytes", n)
+			}
+		}
+	}
 	// BLAKE2X structure: a known-length XOF of at most one node is the node
 	// hash of the root; prefixes of the unknown-length stream are stable.
 	if a, b := Blake2Xb(B2XbUnknown, nil, []byte("abc"), 200), Blake2Xb(B2XbUnknown, nil, []byte("abc"), 131); !bytes.Equal(a[:131], b) {
